@@ -227,7 +227,7 @@ def make_world(scenario, annotated=True):
     w["genes"] = [g1, g2, g5, g6, g8, g9, g10, g11]
     # ... and a transcript with two exon records that touch (no intron between them: legal GTF, e.g. an exon split at a CDS boundary by
     # a converter); it is written as annotated
-    g12 = {"id": "G12", "chr": "chr3", "strand": "+", "transcripts": [{"id": "T13", "exons": [[101, 300], [301, 450], [701, 900]]}]}
+    g12 = {"id": "G12", "chr": "chr2", "strand": "+", "transcripts": [{"id": "T13", "exons": [[12451, 12600], [12601, 12700], [12901, 13050]]}]}     # (chr3 stays free of annotated genes)
     if annotated == 2:
         # the reference is itself an IsoQuant output: ids in IsoQuant's style with consecutive numbers on one chromosome
         ren = {"T2": "transcript1.chr1.nic", "T7": "transcript2.chr1.nnic", "T8": "transcript3.chr1.nnic", "T4": "transcript1.chr2.nnic"}
@@ -242,7 +242,7 @@ def make_world(scenario, annotated=True):
             g["id"] = "zeta_" + g["id"].lower()
     syn.plant_for_transcripts(w)
     w["genes"].append(g12)
-    W.add_sites_for_blocks(w, "chr3", [[101, 450], [701, 900]], "+")
+    W.add_sites_for_blocks(w, "chr2", [[12451, 12700], [12901, 13050]], "+")
     # sites for unannotated structures
     W.add_sites_for_blocks(w, "chr1", [slot(i) for i in (0, 1, 2, 4)], "+")
     W.add_sites_for_blocks(w, "chr1", [slot(i) for i in (0, 1, 2, 3, 4, 5)], "+")
